@@ -347,6 +347,26 @@ func c16r4(p *Program, r *Report) {
 			return true
 		})
 		r.Check(okDelete, fi.Decl, "refreshRing strikes reported hosts off the previous set", "delete(prevHosts, id) for every reported host", "reported hosts are not removed from the snapshot of previous hosts: every host would be removed after each refresh")
+		// a reported host that the host filter now rejects must stay in the leftover set (so that it is removed):
+		// striking it off is allowed only on paths where the filter accepted it
+		{
+			g := p.GraphOf(fi)
+			gf := g.GuardFacts()
+			for _, c := range callsIn(fi.Decl.Body) {
+				if calleeName(info, c) != "builtin.delete" || len(c.Args) != 2 || !isIdentOf(info, c.Args[0], prevObj) {
+					continue
+				}
+				f, _ := gf.Before(p.stmtOf(c, fi))
+				accepted := false
+				for atom, v := range f.m {
+					if !v && strings.Contains(atom, "filterHost(") {
+						accepted = true
+					}
+				}
+				r.Check(accepted, c, "refreshRing strikes a host off the previous set only after the host filter accepted it", "dominated by !filterHost(h)",
+					"a reported host is struck off the leftover set before the host filter is consulted: a node that is still reported but is now rejected by the filter (moved to a non-whitelisted address or datacenter) is never removed from ring, pool and policy")
+			}
+		}
 		r.Check(okLoop, fi.Decl, "refreshRing removes every host the cluster no longer reports", "removeHost for each leftover of the previous ring", "hosts that vanished from the cluster's report are never removed from ring, pool and policy")
 		// reported, unfiltered, unknown hosts are added and filled
 		mustCallsAtExits(p, r, fi, "(success)", map[string][]string{
